@@ -261,7 +261,8 @@ def _fails(got, want):
 
 
 def search(ctx, corr, broken):
-    found = []
+    from . import C05 as _c05
+    found = _c05.stateful_hits(corr)
     cands = []
     for d in corr.disagreements:
         i = d['input']
@@ -295,6 +296,9 @@ def replay_finding(ctx, finding):
 
 
 def replay(ctx, failing):
+    if failing.get('kind') == 'stateful':
+        from . import C05 as _c05
+        return _c05.replay_stateful(failing)
     i = failing['input']
     f = _fails(i['got'], i['want'])
     print('input: got=%r want=%r -> %s' % (i['got'], i['want'], f or 'agrees with the specification'))
